@@ -11,12 +11,20 @@ finitely many steps a state `s'` related to `σ'`, with the program counter just
 (`C01_gen_sim_partial`; with `break`, inside loops and inside routines: `C01_gen_sim_block`).
 
 `Sim.Sim K stk σ s` (`Proofs/Sim.lean`, `SimU` with no pending `printf` values) says: both are
-running; `s` has an empty evaluation stack and no pending output; its frame stack is the loop
-frames `stk` of the current activation on top of — at top level (`K.ret = none`) nothing, with
-`σ.locals = none`; inside a routine call (`K.ret = some (ret, rest)`) the call frame holding
-exactly `σ.locals` with return address `ret`, on top of the caller's frames `rest`;
-`σ.routines` is the script's routine table `K.routines`; the unit-mode register holds a unit mode
-(an invariant of every run from the initial state: the code of `cycle` loops tests that register);
+running; `s` has no pending output; `stk : Sim.Stk` are the control stacks of the current
+activation as the generated code sees them between two statements — its loop frames `stk.frames`
+(innermost first) and the evaluation stack `stk.ev`, which is exactly `s.eval` (EMPTY at top level
+outside loops over names; inside such a loop it holds the names still to visit, inside a callee the
+caller's stack) and which is what the loop frames recorded (`Sim.EvOk`: below what was pushed since
+the innermost `LOOP` lies the stack as it was at that `LOOP`, whose height the frame holds; at the
+bottom the stack on entry of the activation); the frame stack of `s` is `stk.frames` on top of — at
+top level (`K.ret = none`) nothing, with
+`σ.locals = none`; inside a routine call (`K.ret = some (ret, rest, ev)`) the call frame holding
+exactly `σ.locals` with return address `ret`, on top of the caller's frames `rest` (and `ev` is the
+caller's evaluation stack, which a `return` restores);
+`σ.routines` is the script's routine table `K.routines`; `Sim.RegsOk`: the unit-mode register holds
+a unit mode and `disc_forward` is false (invariants of every run from the initial state: the code of
+`cycle` loops tests the former, the discovery instructions walk backwards because of the latter);
 and globals, constants (macros), lights,
 the trace of events (device commands, delays, output), default colour, matrix, random draws and
 EVERY register except `result` are EQUAL.  `result` is the generated code's scratch register
@@ -26,37 +34,52 @@ source semantics does not model it.
 The fragment (`Sim.FragStmt` / `FragBlock` / `FragOperand(s)` in `Proofs/SimStmts.lean`):
 * value positions (`Sim.RvOK`): literal, variable, register other than `result`, or a call-free
   expression of any depth that does not read `result`;
-* `setReg r v` (`r ≠ unitMode`), `assign`, `print`, `println`, `printf` (at least as many
+* `setReg r v` (`Sim.SettableReg r`: `r ≠ unitMode`, `r ≠ discForward`), `assign`, `print`,
+  `println`, `printf` (at least as many
   positional fields as arguments, no field named `result`), `defMacro`, `wait`, `units`, `timeAt`;
 * `actAll`, `setDefault`, `get`, `stage`, `action k ops` with operands `light`/`group`/`location`
   (name as string or variable), `zone`, `matrixInline`, `matrixBlock` with ANY body of the fragment;
 * `ite` with or without `else`, nested to any depth;
-* `repeat_ (.count n)`, `repeat_ (.while_ c)`, `repeat_ .forever`, and the index-variable forms
+* EVERY form of `repeat`, nested to any depth, with `brk` anywhere in the bodies (inside `ite`,
+  inside a matrix body, …), with operands that are value positions of the fragment:
+  `repeat_ (.count n)`, `repeat_ (.while_ c)`, `repeat_ .forever`; the index-variable forms
   `repeat_ (.range v a b)` (`repeat with v from a to b`), `repeat_ (.interp n v a b)`
   (`repeat n with v from a to b`), `repeat_ (.cycle n v start)` (`repeat n with v cycle [start]`)
-  with operands that are value positions of the fragment, nested to any depth, with `brk` anywhere
-  in their bodies (inside `ite`, inside a matrix body, …); the body may read and ASSIGN the index
-  variable, and the variable may be read after the loop (`Sem` was changed for this, see below);
+  — the body may read and ASSIGN the index variable, and the variable may be read after the loop —;
+  and the loops over names `repeat_ (.all lv w)`, `(.groups lv w)`, `(.locations lv w)`,
+  `(.iter items lv w)` (`repeat all|group|location|in a and group g and location l … as lv [with
+  v from a to b | with v cycle [s]]`), a `break` or `return` inside which drops the names still
+  waiting on the evaluation stack;
 * `call f ps as` as a statement, of a routine of the script or a built-in, with simple arguments
   (literal, variable, register other than `result`) and distinct parameter names — any depth of
-  nesting and recursion (the induction is on the fuel of `Sem`, not on the program); `ret v`
+  nesting and recursion (the induction is on the fuel of `Sem`, not on the program), also from
+  inside loops over names (the callee runs above the caller's evaluation stack); `ret v`
   from any loop depth inside a routine.  The routines are given by the hypothesis
   `Sim.RoutinesAt img R`: every routine of the table `R` has a body of the fragment whose code,
   followed by `END`, sits at the address the image's routine table gives (as the loader lays
   routines out), and no other name is in the image's table.
 Not covered: routine DEFINITIONS inside the block (the loader's relocation); calls in value
-positions (`[f x]`, `{… f(x) …}`); the `repeat` forms over lights/groups/locations.
+positions (`[f x]`, `{… f(x) …}`).
 
-`Sem` and the index variable (changed together with this extension; the statements of the theorems
-are unchanged, their meaning follows `Sem`): the index variable of the `with` forms is an ordinary
-variable, as on the machine — the operands are evaluated once, in the order of the generated code;
-the variable is given its first value whatever the count (a count of 0 or a negative count makes
-no pass but still assigns it); after every pass that runs to its end the increment is ADDED to what
-the variable then holds (`Sem.execPasses`), so after the loop it is one increment past its last
-value, `break` leaves it as it is, and an assignment in the body carries over to the next pass
-(the number of passes is not affected).  Before, `Sem` bound precomputed values pass by pass and
-assigned nothing without a pass — which the machine does not do; `harness/c04.py` reads the
-variable after loops of every form against the real implementation.
+Changes of `Sem` made together with these extensions (the statements of the theorems did not change
+in form — `stk` is now a `Sim.Stk`, `C01_gen_sim_return` also says which evaluation stack is left —
+their meaning follows `Sem`; all of it was validated against the REAL implementation by
+`./check C04`, `C01`, `C03`, `C15`):
+* the index variable of the `with` forms is an ordinary
+  variable, as on the machine — the operands are evaluated once, in the order of the generated code;
+  the variable is given its first value whatever the count (a count of 0 or a negative count makes
+  no pass but still assigns it); after every pass that runs to its end the increment is ADDED to what
+  the variable then holds (`Sem.execPasses`), so after the loop it is one increment past its last
+  value, `break` leaves it as it is, and an assignment in the body carries over to the next pass
+  (the number of passes is not affected).  Before, `Sem` bound precomputed values pass by pass and
+  assigned nothing without a pass — which the machine does not do; `harness/c04.py` reads the
+  variable after loops of every form against the real implementation;
+* the sources of `repeat in a and b and …` are EVALUATED from the last to the first (they are
+  still VISITED in the order written; only calls in the names of sources could tell, and those are
+  outside the fragment); the members of a group or location are visited once each (`dedupSorted`;
+  the real directory cannot hold two lights of one name, the model's list of lights can); and a
+  loop over names leaves the kind of what it walked (`light`, `group`, `location`) in the `operand`
+  register, which the discovery instructions read (`print operand` would show it).
 
 The full statement (`gen_sim`, DESIGN §6 C01), of which the theorems below are the part proved:
 
@@ -77,8 +100,6 @@ What is missing for the full statement:
 * calls in value positions: `Sem.evalRv`/`evalExpr` with a state-changing call, the value coming
   back in `result` (`RetPost` would have to relate `σ'.result` to the register), and
   `C02_postfix_eval` for expressions containing calls;
-* the iterator forms of `repeat` (`all`, `groups`, `locations`, `iter`): the discovery
-  instructions with names on the evaluation stack (the relation `Sim` has an empty stack).
 Restrictions of the fragment that are forced by the MODEL (source semantics and machine disagree
 outside them; concrete scripts are at the end of this file):
 * `Sem` does not model the `result` register, the generated code uses it as scratch: a script
@@ -87,7 +108,9 @@ outside them; concrete scripts are at the end of this file):
 * `printf` with more arguments than positional fields: the machine writes only the last values
   and keeps the others pending, `Sem` writes them all;
 * `setReg .unitMode v` (not produced by the parser, which emits `units m`): the machine's
-  `MOVEQ … unit_mode` converts the colour registers, `Sem`'s `setReg` does not;
+  `MOVEQ … unit_mode` converts the colour registers, `Sem`'s `setReg` does not; `setReg .discForward v`
+  (the language has no name for that register): with a true value the machine discovers forwards
+  and so visits names in DESCENDING order, `Sem` always ascending;
 * a routine with two parameters of the same name: `Sem.evalArgs` binds the FIRST argument of
   that name (a list searched from the front), the machine's `PARAM` the LAST (`Dict.put`
   overwrites) — hence "distinct parameter names".
@@ -187,14 +210,15 @@ theorem Sim.allGoals_le (img : Image) (R : List (String × Sem.Routine)) (hR : R
           (fun g hg r' st => (ihle g (by omega)).blockR r' st) hR,
         fun r => block_step f (ih.stmts r) (ih.block r),
         fun r => operand_step f (ih.block r), fun r => operands_step f (ih.operand r) (ih.operands r),
-        fun r => loop_step f (ih.whileI r) (ih.countI r),
+        fun r => loop_step f (ih.whileI r) (ih.countI r) (fun g hg => (ihle g (by omega)).countI r),
         fun r => while_step f (ih.block r) (ih.whileI r),
         fun r => count_step f (ih.block r) (ih.countI r),
         fun r st => stmts_ret_step f (ih.blockR r st) (ih.operandsR r st) (ih.loopR r st) r st.1 st.2 rfl,
         fun r st => block_ret_step f (ih.stmts _) (ih.stmtsR r st) (ih.blockR r st),
         fun r st => operand_ret_step f (ih.blockR r st),
         fun r st => operands_ret_step f (ih.operand _) (ih.operandR r st) (ih.operandsR r st),
-        fun r st => loop_ret_step f (ih.whileR r st) (ih.countR r st),
+        fun r st => loop_ret_step f (ih.whileR r st) (ih.countR r st)
+          (fun g hg => (ihle g (by omega)).countR r st),
         fun r st => while_ret_step f (ih.block _) (ih.blockR r st) (ih.whileR r st),
         fun r st => count_ret_step f (ih.block _) (ih.blockR r st) (ih.countR r st)⟩
 
@@ -872,6 +896,143 @@ example : (Vm.finish (Vm.run (Loader.load c01Code3) 2000 (Vm.init []))).trace =
 example : (Sem.run 400 c01Script3 []).2.vm.trace.reverse =
     [.out (.int 3), .out (.int 2), .out (.int 1), .out (.int 7),
      .out (.int 100), .out (.num 32868), .out (.num 65636)] := by decide +kernel
+
+/-! ### fifth script: loops over names — all lights; all groups with a range spread over them; a
+list of sources (a light, a group, a location nobody is in) with `cycle`, left by `break` with
+names still waiting on the evaluation stack; a loop over a group's members nested in a loop over
+locations, the inner one left by `break` in every pass of the outer one
+
+```
+repeat all as L { print L }
+repeat group as G with x from 10 to 20 { print G  print x }
+repeat in "z" and group "g" and location "nowhere" as L with h cycle { print L  print h  if {h > 100} { break } }
+print h
+repeat location as P { repeat in group "g" as M { print M  break }   print P }
+``` -/
+
+def c01Script4 : Block := Block.ofList [
+  .repeat_ (.all "L" none) (Block.ofList [.print (.var "L")]),
+  .repeat_ (.groups "G" (some (.fromTo "x" (.lit (.int 10)) (.lit (.int 20)))))
+    (Block.ofList [.print (.var "G"), .print (.var "x")]),
+  .repeat_ (.iter [.light (.lit (.str "z")), .group (.lit (.str "g")), .location (.lit (.str "nowhere"))] "L"
+      (some (.cycle "h" none)))
+    (Block.ofList [.print (.var "L"), .print (.var "h"),
+      .ite (.expr (.bin .gt (.var "h") (.lit (.int 100)))) (Block.ofList [.brk]) none]),
+  .print (.var "h"),
+  .repeat_ (.locations "P" none) (Block.ofList [
+    .repeat_ (.iter [.group (.lit (.str "g"))] "M" none) (Block.ofList [.print (.var "M"), .brk]),
+    .print (.var "P")])]
+
+/-- what `Gen.genProgram` makes of it (252 instructions) -/
+def c01Code4 : List Instr := [
+  .loop, .moveq (.int 0) (.loopVar .counter), .moveq (.operand .light) (.reg .operand), .disc,
+  .move (.reg .result) (.loopVar .current), .push (.loopVar .current), .push (.lit (.operand .null)),
+  .op .noteq, .pop (.reg .result), .jump .ifFalse 9, .push (.loopVar .counter), .pushq (.int 1), .op .add,
+  .pop (.loopVar .counter), .push (.loopVar .current), .moveq (.operand .light) (.reg .operand),
+  .dnext (.loopVar .current), .jump .always (-13), .push (.loopVar .counter), .pushq (.int 0), .op .gt,
+  .pop (.reg .result), .jump .ifFalse 10, .pop (.var "L"), .move (.var "L") (.reg .result),
+  .out .register (.reg .result), .out .print (.lit .none), .push (.loopVar .counter), .pushq (.int 1),
+  .op .sub, .pop (.loopVar .counter), .jump .always (-13), .endLoop, .loop,
+  .moveq (.int 0) (.loopVar .counter), .moveq (.operand .group) (.reg .operand), .disc,
+  .move (.reg .result) (.loopVar .current), .push (.reg .result), .push (.lit (.operand .null)),
+  .op .noteq, .pop (.reg .result), .jump .ifFalse 9, .push (.loopVar .counter), .pushq (.int 1), .op .add,
+  .pop (.loopVar .counter), .push (.loopVar .current), .moveq (.operand .group) (.reg .operand),
+  .dnext (.loopVar .current), .jump .always (-13), .moveq (.int 10) (.loopVar .first),
+  .moveq (.int 20) (.loopVar .last), .move (.loopVar .first) (.var "x"), .push (.loopVar .counter),
+  .pushq (.int 1), .op .noteq, .pop (.reg .result), .jump .ifFalse 10, .push (.loopVar .last),
+  .push (.loopVar .first), .op .sub, .push (.loopVar .counter), .pushq (.int 1), .op .sub, .op .div,
+  .pop (.loopVar .incr), .jump .always 2, .moveq (.int 0) (.loopVar .incr), .push (.loopVar .counter),
+  .pushq (.int 0), .op .gt, .pop (.reg .result), .jump .ifFalse 17, .pop (.var "G"),
+  .move (.var "G") (.reg .result), .out .register (.reg .result), .out .print (.lit .none),
+  .move (.var "x") (.reg .result), .out .register (.reg .result), .out .print (.lit .none),
+  .push (.loopVar .counter), .pushq (.int 1), .op .sub, .pop (.loopVar .counter), .push (.var "x"),
+  .push (.loopVar .incr), .op .add, .pop (.var "x"), .jump .always (-20), .endLoop, .loop,
+  .moveq (.int 0) (.loopVar .counter), .moveq (.str "nowhere") (.loopVar .first),
+  .moveq (.operand .location) (.reg .operand), .discm (.loopVar .first),
+  .move (.reg .result) (.loopVar .current), .push (.loopVar .current), .push (.lit (.operand .null)),
+  .op .noteq, .pop (.reg .result), .jump .ifFalse 9, .push (.loopVar .counter), .pushq (.int 1), .op .add,
+  .pop (.loopVar .counter), .push (.loopVar .current), .moveq (.operand .location) (.reg .operand),
+  .dnextm
+   (.loopVar .first)
+   (.loopVar .current), .jump .always (-13),
+  .moveq (.str "g") (.loopVar .first), .moveq (.operand .group) (.reg .operand), .discm (.loopVar .first),
+  .move (.reg .result) (.loopVar .current), .push (.loopVar .current), .push (.lit (.operand .null)),
+  .op .noteq, .pop (.reg .result), .jump .ifFalse 9, .push (.loopVar .counter), .pushq (.int 1), .op .add,
+  .pop (.loopVar .counter), .push (.loopVar .current), .moveq (.operand .group) (.reg .operand),
+  .dnextm
+   (.loopVar .first)
+   (.loopVar .current), .jump .always (-13),
+  .moveq (.str "z") (.reg .result), .push (.reg .result), .push (.loopVar .counter), .pushq (.int 1),
+  .op .add, .pop (.loopVar .counter), .moveq (.int 0) (.loopVar .first),
+  .move (.loopVar .first) (.var "h"), .push (.loopVar .counter), .pushq (.int 0), .op .eq,
+  .pop (.reg .result), .jump .ifFalse 3, .moveq (.int 0) (.loopVar .incr), .jump .always 12,
+  .push (.reg .unitMode), .pushq (.mode .raw), .op .eq, .pop (.reg .result), .jump .ifFalse 3,
+  .pushq (.int 65536), .jump .always 2, .pushq (.int 360), .push (.loopVar .counter), .op .div,
+  .pop (.loopVar .incr), .push (.loopVar .counter), .pushq (.int 0), .op .gt, .pop (.reg .result),
+  .jump .ifFalse 23, .pop (.var "L"), .move (.var "L") (.reg .result), .out .register (.reg .result),
+  .out .print (.lit .none), .move (.var "h") (.reg .result), .out .register (.reg .result),
+  .out .print (.lit .none), .push (.var "h"), .pushq (.int 100), .op .gt, .pop (.reg .result),
+  .jump .ifFalse 2, .jump .always 10, .push (.loopVar .counter), .pushq (.int 1), .op .sub,
+  .pop (.loopVar .counter), .push (.var "h"), .push (.loopVar .incr), .op .add, .pop (.var "h"),
+  .jump .always (-26), .endLoop, .move (.var "h") (.reg .result), .out .register (.reg .result),
+  .out .print (.lit .none), .loop, .moveq (.int 0) (.loopVar .counter),
+  .moveq (.operand .location) (.reg .operand), .disc, .move (.reg .result) (.loopVar .current),
+  .push (.reg .result), .push (.lit (.operand .null)), .op .noteq, .pop (.reg .result), .jump .ifFalse 9,
+  .push (.loopVar .counter), .pushq (.int 1), .op .add, .pop (.loopVar .counter),
+  .push (.loopVar .current), .moveq (.operand .location) (.reg .operand), .dnext (.loopVar .current),
+  .jump .always (-13), .push (.loopVar .counter), .pushq (.int 0), .op .gt, .pop (.reg .result),
+  .jump .ifFalse 45, .pop (.var "P"), .loop, .moveq (.int 0) (.loopVar .counter),
+  .moveq (.str "g") (.loopVar .first), .moveq (.operand .group) (.reg .operand), .discm (.loopVar .first),
+  .move (.reg .result) (.loopVar .current), .push (.loopVar .current), .push (.lit (.operand .null)),
+  .op .noteq, .pop (.reg .result), .jump .ifFalse 9, .push (.loopVar .counter), .pushq (.int 1), .op .add,
+  .pop (.loopVar .counter), .push (.loopVar .current), .moveq (.operand .group) (.reg .operand),
+  .dnextm
+   (.loopVar .first)
+   (.loopVar .current), .jump .always (-13), .push (.loopVar .counter),
+  .pushq (.int 0), .op .gt, .pop (.reg .result), .jump .ifFalse 11, .pop (.var "M"),
+  .move (.var "M") (.reg .result), .out .register (.reg .result), .out .print (.lit .none),
+  .jump .always 6, .push (.loopVar .counter), .pushq (.int 1), .op .sub, .pop (.loopVar .counter),
+  .jump .always (-14), .endLoop, .move (.var "P") (.reg .result), .out .register (.reg .result),
+  .out .print (.lit .none), .push (.loopVar .counter), .pushq (.int 1), .op .sub, .pop (.loopVar .counter),
+  .jump .always (-48), .endLoop]
+
+theorem c01Script4_frag : FragBlock c01Script4 := by
+  simp only [c01Script4, Block.ofList, FragBlock, FragStmt, RvOK, LoopHdrOK, WithOK, OWithOK,
+    List.forall_mem_cons, ItemOK, List.not_mem_nil, false_imp_iff, implies_true]
+  refine ⟨?_, ?_, ?_, ?_, ?_, ?_⟩
+  all_goals first
+    | trivial
+    | decide
+    | (repeat' constructor) <;> first | trivial | decide | nofun
+
+set_option maxRecDepth 8000 in
+theorem c01Script4_code : Gen.genProgram c01Script4 = some c01Code4 := by
+  simp [Gen.genProgram, c01Script4, Block.ofList, genBlock, genStmt, genRv, genExpr, genIf, genLoop,
+    assembleLoop, patchBreaks_eq, patchRec, ins, counterTest, testOp, loopPost, counter, result, pushLit,
+    indexVarRange, cycleVarRange, calcCounter, calcIncr, incCounter, withClause, withVar, iterLights, iterSets,
+    iterMembers, iterItems, iterItem, iterSkeleton, pushCurrent, c01Code4]
+
+theorem c01Script4_sem : (Sem.run 400 c01Script4 c01Lights2).1 = .normal := by decide +kernel
+
+/-- `C01_gen_sim_loaded` applied: the loaded, compiled script halts with the source-level trace -/
+example : ∃ k, (run (Loader.load c01Code4) k (Vm.init c01Lights2)).status = .halted ∧
+    (Vm.finish (run (Loader.load c01Code4) k (Vm.init c01Lights2))).trace =
+      .flush :: (Sem.run 400 c01Script4 c01Lights2).2.vm.trace :=
+  C01_gen_sim_loaded c01Script4 c01Script4_frag c01Code4 c01Script4_code 400 c01Lights2
+    (Sem.run 400 c01Script4 c01Lights2).2 (eq_of_fst c01Script4_sem)
+
+/-- by evaluation, independently of the theorem -/
+example : (Vm.finish (Vm.run (Loader.load c01Code4) 3000 (Vm.init c01Lights2))).trace =
+    .flush :: (Sem.run 400 c01Script4 c01Lights2).2.vm.trace := by decide +kernel
+
+/-- the values: the lights in name order; the groups with 10 … 20 spread over them; "z", then the
+first member of "g" (the loop is left with "m" still waiting; nobody is in "nowhere"), `h` as the
+`break` left it; per location the first member of "g" -/
+example : (Sem.run 400 c01Script4 c01Lights2).2.vm.trace.reverse =
+    [.out (.str "a"), .out (.str "m"), .out (.str "z"),
+     .out (.str "g"), .out (.int 10), .out (.str "h"), .out (.num 20),
+     .out (.str "z"), .out (.int 0), .out (.str "a"), .out (.num 120), .out (.num 120),
+     .out (.str "a"), .out (.str "home")] := by decide +kernel
 
 /-! ### why the fragment excludes reading `result` and `setReg unitMode`: on these scripts the
 source semantics and the machine (both of the MODEL) disagree
